@@ -622,10 +622,18 @@ func runC19Capture(t *verifsim.Tape, cfg engine.Config, o *engine.Outcome) *engi
 			}
 		}
 		twice := explicit && t.Draw("second-writeheader", 6) == 0
+		// informational responses before the final one (legal since Go 1.19: Early Hints, Processing)
+		var early []int
+		for k := t.Pick("informational", 6, 1, 1); k > 0; k-- {
+			early = append(early, []int{103, 102, 100}[t.Draw("1xx", 3)])
+		}
 		var cap *httpmw.ResponseCapture
 		net := &simnet.Net{Tape: t, Cfg: simnet.Config{Chunking: true, WriterError: 350}}
 		net.Handler = http.HandlerFunc(func(w http.ResponseWriter, r *http.Request) {
 			cap = httpmw.CaptureResponse(w)
+			for _, c := range early {
+				cap.WriteHeader(c)
+			}
 			if explicit {
 				cap.WriteHeader(status)
 			}
@@ -660,6 +668,13 @@ func runC19Capture(t *verifsim.Tape, cfg engine.Config, o *engine.Outcome) *engi
 		}
 		wantStatus := ex.Status // what the underlying writer committed = what the client receives
 		sig := fmt.Sprintf("capture:explicit=%v,chunks=%v,second=%v", explicit, nChunks > 0, twice)
+		if len(early) > 0 {
+			sig += ",informational"
+			o.Features["capture_informational_first"]++
+			if len(ex.Informational) != len(early) {
+				o.Violate("capture_informational", sig, "the handler sent %v before its final response, the writer saw %v", early, ex.Informational)
+			}
+		}
 		fmt.Fprintf(h, "%d:%d:%d;", i, cap.StatusCode, cap.ContentLength)
 		if err == nil && resp.StatusCode != wantStatus {
 			o.Violate("harness_status", "harness_status", "client saw %d, recorder committed %d", resp.StatusCode, wantStatus)
